@@ -1036,9 +1036,6 @@ theorem hyps_of_all_nodes (t : Node)
   · intro m hm
     exact ha m (visited_subset_nodes t m hm)
 
-set_option profiler true
-set_option profiler.threshold 1000
-
 /-! ## 12. non-vacuity: every kind once, hostile payloads; and why the hypotheses are needed -/
 
 deriving instance DecidableEq for Except
@@ -1077,17 +1074,33 @@ example : Renderable docAll ∧ HtmlFree docAll ∧ AttrsSourcepos docAll := by 
 -- … although an html node occurs in the tree (below the image): `HtmlFree` is about rendered nodes
 example : ∃ m ∈ nodes docAll, m.kind.isHtml = true := by decide
 
--- and this is what it renders to (byte-identical to the Rust `xrender()` / `render()` of that tree)
-example : renderHtml lkDemo true docAll = .ok
-    ("<h1 data-sourcepos=\"1:1-1:3\">&quot;&gt;&lt;script&gt;</h1>\n<h2>a�b</h2>\n" ++
-     "<p><em>e</em><strong>s</strong><s>d</s>&lt;\n<br />\n<code>&lt;c&gt;</code>" ++
-     "<a href=\"/u&quot;x\" title=\"t&quot;&lt;\">l</a>" ++
-     "<img src=\"/i\" alt=\"a&quot;&lt;b&gt;\n\" title=\"&quot; onerror=&quot;x\" />" ++
-     "<a href=\"http://x/?a&amp;b\">http://x/?a&amp;b</a></p>\n<hr />\n" ++
-     "<pre><code>&lt;pre&gt;\n</code></pre>\n" ++
-     "<pre><code class=\"language-r&quot;&quot;s\">x\n</code></pre>\n" ++
-     "<blockquote>\n<ol start=\"7\">\n<li>i</li>\n</ol>\n<ul>\n<li></li>\n</ul>\n</blockquote>\n").toList := by
-  decide +kernel
+-- and this is what it renders to (byte-identical to the Rust `xrender()` / `render()` of that tree;
+-- the expected string is cut into short literals because `String.toList` of a long literal is
+-- slow in the kernel)
+def docAllXhtml : List Char :=
+     "<h1 data-sourcepos=\"1:1-1:3\">&quot;&gt;&lt;scrip".toList ++
+     "t&gt;</h1>\n<h2>a�b</h2>\n<p><em>e</em><strong>s</".toList ++
+     "strong><s>d</s>&lt;\n<br />\n<code>&lt;c&gt;</code".toList ++
+     "><a href=\"/u&quot;x\" title=\"t&quot;&lt;\">l</a><i".toList ++
+     "mg src=\"/i\" alt=\"a&quot;&lt;b&gt;\n\" title=\"&quot".toList ++
+     "; onerror=&quot;x\" /><a href=\"http://x/?a&amp;b\"".toList ++
+     ">http://x/?a&amp;b</a></p>\n<hr />\n<pre><code>&lt".toList ++
+     ";pre&gt;\n</code></pre>\n<pre><code class=\"languag".toList ++
+     "e-r&quot;&quot;s\">x\n</code></pre>\n<blockquote>\n<".toList ++
+     "ol start=\"7\">\n<li>i</li>\n</ol>\n<ul>\n<li></li>\n</".toList ++
+     "ul>\n</blockquote>\n".toList
+
+example : renderHtml lkDemo true docAll = .ok docAllXhtml := by
+  -- evaluated through the per-event pieces (`serialize_events`): linear, unlike the buffer fold
+  have h : (render lkDemo docAll).map (fun evs => replaceNul (flatten (pieces true evs))) =
+      .ok docAllXhtml := by decide +kernel
+  unfold renderHtml
+  cases hr : render lkDemo docAll with
+  | error e => rw [hr] at h; simp [Except.map] at h
+  | ok evs =>
+    rw [hr] at h
+    simp only [Except.map, Except.ok.injEq] at h
+    simp only [serialize_events, h]
 
 example : (render lkDemo docAll).toOption.map List.length = some 79 := by decide +kernel
 
